@@ -119,8 +119,8 @@ def plan(tier: str) -> dict:
             for pos in ("before", "between", "after"):
                 cases.append({"worker": worker, "case": {"kind": "h2-rare", "items": [item], "pos": pos}})
     return {
-        "runs": 12000 if tier == "quick" else 600000,
-        "budget": 100 if tier == "quick" else 900,
+        "runs": 25000 if tier == "quick" else 600000,
+        "budget": 150 if tier == "quick" else 900,
         "cases": cases,
         "chunk": 40,
         "rule": "Four input families, each with tape-drawn segmentation and inter-segment delays on both workers: (a) random "
